@@ -79,7 +79,7 @@ func (r *verifRig) verifEvent(name string, T int, maxS int) *Message {
 	case 0:
 		verifCase("app")
 		m = r.appMessage(S)
-		if ndBool(name + ".two-letter-type") {
+		if r.richEvents && ndBool(name+".two-letter-type") {
 			// application message types are not all one character, and their first character may be that of an
 			// administrative type (AE TradeCaptureReport, AS AllocationReport, ...)
 			m.Header.SetString(tagMsgType, "AE")
@@ -94,7 +94,7 @@ func (r *verifRig) verifEvent(name string, T int, maxS int) *Message {
 	case 3:
 		verifCase("resendrequest")
 		m = r.inbound("2", S)
-		if ndBool(name + ".without-range") {
+		if r.richEvents && ndBool(name+".without-range") {
 			// a damaged ResendRequest: looked at whatever its number, then rejected for the missing field
 			verifCase("no-range")
 		} else {
@@ -151,6 +151,7 @@ func VerifHarness_C01_step() {
 	}
 	r.app.appMayReject = true
 	r.allEventTypes = true
+	r.richEvents = true
 	T := ndInt("T", verifSeqLo(), 60)
 	r.setCounters(T, ndInt("N", 1, 9))
 	kind := verifConc(ndInt("state", 0, 4))
@@ -170,7 +171,9 @@ func VerifHarness_C01_step() {
 	}
 	if resetMode {
 		ns, e := m.Body.GetInt(tagNewSeqNo)
-		if e == nil && ns <= T {
+		if e == nil && ns <= T && r.app.adminRejects == 0 {
+			// (when the application itself refuses the message in FromAdmin, the message carrying the expected number
+			// is consumed like any other rejected message)
 			verifAssert(T1 == T, "step-reset-not-moving-forward-changes-nothing")
 		}
 	}
